@@ -47,12 +47,26 @@ var properties = map[string]*Property{
 				"(*Comp).varAddExpr", "(*Comp).varSubExpr", "(*Comp).varMulExpr", "(*Comp).varQuoExpr", "(*Comp).varRemExpr",
 				"(*Comp).varAndExpr", "(*Comp).varOrExpr", "(*Comp).varXorExpr", "(*Comp).varAndnotExpr",
 				"(*Comp).varSetConst", "(*Comp).varSetExpr",
+				"(*Comp).setVar", "(*Comp).setPlace",
 			}},
 		},
 		NotCovered: []string{
-			"non-variable places (place_ops.go, place_set.go, place_shifts.go), shift-assignments on variables (var_shifts.go), varQuoPow2",
-			"dispatch (setVar, setPlace, IncDec), multi-assignment phase discipline (assign2, assignMulti), blank identifier",
+			"the closures for non-variable places (place_ops.go, place_set.go, place_shifts.go) and for shift-assignments on variables (var_shifts.go), varQuoPow2: only their dispatch is under contract",
+			"IncDec, multi-assignment phase discipline (assign2, assignMulti), blank identifier",
 			"composition with the rest of the program (paper induction, DESIGN.md 4.6)",
+		},
+	},
+	"C05": {
+		ID:    "C05",
+		Title: "Statement control flow is executed exactly as in Go",
+		Units: []Unit{
+			{Kind: "funcs", Pkg: "fast", Funcs: []string{"(*Comp).jumpOut", "(*Comp).Goto"}},
+		},
+		NotCovered: []string{
+			"if / for / switch / type switch / select / range layout and their closures, break and continue label resolution (Comp.Break, Comp.Continue), fallthrough, jump tables (switchGotoSlice/Map, typecaseHelper)",
+			"forward goto (documented limitation of the interpreter)",
+			"Goto is stated for labels at most two scopes around the goto (the search loop itself is verified for any depth)",
+			"composition into whole programs (paper induction)",
 		},
 	},
 	"C06": {
